@@ -521,7 +521,8 @@ class DatasetProcessor:
             open(fname, "w").close()
 
         if self.args.read_assignments:
-            saves_file = self.args.read_assignments[0]
+            # every save prefix given to --read_assignments is an experiment of its own
+            saves_file = sample.file_list[0][0]
             logger.info('Using read assignments from {}*'.format(saves_file))
         else:
             self.collect_reads(sample)
